@@ -32,6 +32,15 @@ def pool_task(x, delays=(), fails=None, log=None, salt=0, vk=None, none_pos=None
     return progs.value_of(vk, ('r', i, salt))
 
 
+def pull_marker(x, log=None, none_pos=None):
+    """Identity stage in front of a parallel map: records that the INPUT example was pulled."""
+    i = none_pos if x is None else x[1]
+    fd = os.open(log, os.O_WRONLY | os.O_APPEND | os.O_CREAT)
+    os.write(fd, f'pull {i}\n'.encode())
+    os.close(fd)
+    return x
+
+
 class _Alarm:
     def __init__(self, seconds):
         self.seconds = seconds
@@ -73,6 +82,9 @@ def run_pool_case(case):
                 else:
                     ds = lazy_dataset.new(vals)
                 if api == 'pm':
+                    if case.get('readahead'):
+                        # the input side of the parallel map is observable too (it runs in this process)
+                        ds = ds.map(functools.partial(pull_marker, log=log, none_pos=case.get('src_none')))
                     ds = ds.map(fn, num_workers=w, buffer_size=b, backend=be)
                 else:
                     catch = case.get('catch', False)
@@ -171,12 +183,18 @@ def judge_pool(case, out):
     if case['api'] in ('pm', 'pf') and case.get('catch', False) is False and out['len'] != case['n']:
         raise Violation(f'pool-len-wrong|{case["backend"]}', f'{desc}\nlen {out["len"]}')
     if case.get('readahead'):
-        started = handed = 0
+        started = handed = pulled = 0
         for line in out.get('lines', []):
             if line.startswith('start'):
                 started += 1
             elif line.startswith('handed'):
                 handed += 1
+            elif line.startswith('pull'):
+                pulled += 1
+                if pulled - handed > case['buffer'] + 2:
+                    raise Violation(f'pool-readahead-pulled|{case["backend"]}',
+                                    f'{desc}\nat log line {line!r}: {pulled} input examples pulled, {handed} examples '
+                                    f'handed to the consumer, buffer_size {case["buffer"]}')
             single_thread = case['api'] == 'pf' and case['workers'] == 1 and case['backend'] == 't'
             if started - handed > case['buffer'] + (2 if single_thread else 0):
                 raise Violation(f'pool-readahead-started|{case["backend"]}',
